@@ -37,8 +37,9 @@ static reproc_t *poll_process(void)
 }
 
 /* ---- specification helpers: plain loops over the (bounded) sources ------------ */
-static reproc_event_source src[3];
-static reproc_event_source src0[3]; /* as passed in */
+#define VERIF_MAXSRC (VERIF_NSRC > 3 ? VERIF_NSRC : 3)
+static reproc_event_source src[VERIF_MAXSRC];
+static reproc_event_source src0[VERIF_MAXSRC]; /* as passed in */
 static size_t nsrc;
 
 static bool has_dl(size_t k) { return k < nsrc && src0[k].process != NULL && src0[k].process->deadline != -1; }
@@ -191,7 +192,7 @@ void harness(void)
           V_ASSERT("C08/poll.timeout_first_returns_zero_without_events", verif_rv == 0 && none);
         } else {
           V_ASSERT("C08/poll.deadline_first_is_deadline_event_on_earliest_source",
-                   verif_rv == 1 && best >= 0 && has_dl(0) | has_dl(1) | has_dl(2));
+                   verif_rv == 1 && best >= 0);
           bool found = false;
           for (size_t r = 0; r < VERIF_NSRC; r++) {
             if (r < nsrc && has_dl(r) && dl(r) == dl((size_t) best) && only_deadline_on(r)) found = true;
